@@ -486,7 +486,7 @@ def drive(world, method, cfg, plans):
 # ----------------------------------------------------------------------------------------------------------------
 TRACE_INV = ["M_RollBatch", "M_RollScore", "M_Start", "M_Best", "M_Sol", "M_SolSeen", "M_Mono", "M_Buffers", "M_FinalShape",
              "M_Final", "M_Params", "M_IterCount", "M_Drift", "End_"]
-TRACE_CONST = dict(Method='"AS"', NData="1", B="1", A="1", R="1", MaxIters="1", C="1", DevSlots="{}", Stops="{}", Focuses="{}", StaleTail="FALSE", EASGroupAsCoded="FALSE",
+TRACE_CONST = dict(Method='"AS"', NData="1", B="1", A="1", R="1", MaxIters="1", C="1", DevSlots="{}", Stops="{}", Focuses="{}", StaleTail="FALSE",
                    EASStartMod="FALSE", OptSteps="0", Aliased="TRUE")
 # clause -> property
 CLAUSE = {"rollouts-of-own-batch": "C12", "rollout-reward-is-objective-on-original": "C12", "start-node-feasible": "C12",
@@ -546,8 +546,8 @@ INVARIANTS = ["TypeOK", "BestIsMax", "SolAchieves", "Monotone", "RowsKeepInstanc
               "FinalBest", "ParamsAtBatchStart", "IterCount", "Emit"]
 FIELDS = ["pc", "bi", "it", "ver", "maxRew", "bestSol", "instRew", "instSol", "rolls"]
 # the INTENDED behaviour (see the header of Search.tla); `--as-coded` explores the behaviour of the pinned tree instead
-INTENDED = dict(StaleTail="FALSE", EASStartMod="FALSE", EASGroupAsCoded="FALSE", OptSteps="0", Aliased="TRUE")
-AS_CODED = dict(StaleTail="TRUE", EASStartMod="TRUE", EASGroupAsCoded="TRUE", OptSteps="0", Aliased="TRUE")
+INTENDED = dict(StaleTail="FALSE", EASStartMod="FALSE", OptSteps="0", Aliased="TRUE")
+AS_CODED = dict(StaleTail="TRUE", EASStartMod="TRUE", OptSteps="0", Aliased="TRUE")
 
 CONFIGS = {
     # env, method (model), cls (real class), n, B, A, R, max_iters, C, DevSlots
@@ -645,18 +645,19 @@ def compare_run(world, cd, table, key, events):
     env_name, nn_ = world.env_name, world.NN
     seen = {}                                       # iid -> {(rew, eff acts)} by content, from the REAL rollouts
     prev_iter = None                                # observation of the previous iteration of the same batch
+    notes = []                                      # protocol-level disagreement that is not a property failure
     kinds, want_kinds = [e["a"] for e in events], [a[0] for a in h]
     if kinds != want_kinds:
         j = next((k for k, (x, y) in enumerate(zip(kinds, want_kinds)) if x != y), min(len(kinds), len(want_kinds)) - 1)
         if [k for k in kinds if k != "iter"] == [k for k in want_kinds if k != "iter"]:
-            return [(j, "C15", "iteration-count", "the real run took the actions %s, the specification (max_iters %d, run-time limit exceeded "
+            return notes + [(j, "C15", "iteration-count", "the real run took the actions %s, the specification (max_iters %d, run-time limit exceeded "
                      "after iteration %d) %s" % (kinds, cd["max_iters"], stop, want_kinds))]
-        return [(j, None, "batch-structure", "the real run took the actions %s, the specification %s" % (kinds, want_kinds))]
+        return notes + [(j, None, "batch-structure", "the real run took the actions %s, the specification %s" % (kinds, want_kinds))]
     for j, (act, e) in enumerate(zip(h, events)):
         spec = table[(focus, stop, h[: j + 1])]
         o = e["obs"]
         if act[0] == "bstart" and not o["paramsOk"]:
-            return [(j, "C15", "parameters-restored-at-batch-start", "batch %d does not start from the original policy parameters" % e["bi"])]
+            return notes + [(j, "C15", "parameters-restored-at-batch-start", "batch %d does not start from the original policy parameters" % e["bi"])]
         if act[0] == "iter":
             real = sorted((r["i"], r["rew"], tuple(eff(env_name, r["acts"], nn_))) for r in e["rolls"])
             want = sorted((r["i"], r["rew"], tuple(eff(env_name, r["acts"], nn_))) for r in spec["rolls"])
@@ -680,16 +681,16 @@ def compare_run(world, cd, table, key, events):
             if real != want:
                 bad_start = [(r["i"], r["acts"]) for r in e["rolls"] if r["i"] and r["acts"][0] not in first_moves(world, r["i"])]
                 if bad_start:
-                    return [(j, "C12", "start-node-feasible", "rollout %s of instance %d starts with a move the environment does not offer "
+                    return notes + [(j, "C12", "start-node-feasible", "rollout %s of instance %d starts with a move the environment does not offer "
                              "(start nodes of the iteration: %s, specification: %s)"
                              % (bad_start[0][1], bad_start[0][0], sorted({r["acts"][0] for r in e["rolls"]}), sorted({r["acts"][0] for r in spec["rolls"]})))]
                 owners = sorted(r["i"] for r in e["rolls"])
                 if owners != sorted(r["i"] for r in spec["rolls"]):
-                    return [(j, "C12", "rollouts-of-own-batch", "rows were rolled out on instances %s, specification %s"
+                    return notes + [(j, "C12", "rollouts-of-own-batch", "rows were rolled out on instances %s, specification %s"
                              % (owners, sorted(r["i"] for r in spec["rolls"])))]
-                return [(j, None, "rollouts-differ-from-plan", "real %s / planned %s" % (real[:4], want[:4]))]
+                return notes + [(j, None, "rollouts-differ-from-plan", "real %s / planned %s" % (real[:4], want[:4]))]
             if o["maxRew"] != spec["maxRew"]:
-                return [(j, "C15", "incumbent-is-best-of-all-rollouts", "max_reward %s, specification %s" % (o["maxRew"], spec["maxRew"]))]
+                return notes + [(j, "C15", "incumbent-is-best-of-all-rollouts", "max_reward %s, specification %s" % (o["maxRew"], spec["maxRew"]))]
             for b, (row, srow) in enumerate(zip(o["bestSol"], spec["bestSol"])):
                 iid = e["bi"] * cd["B"] + b + 1
                 if row == srow:
@@ -697,27 +698,27 @@ def compare_run(world, cd, table, key, events):
                 tied = (o["maxRew"][b], tuple(eff(env_name, row, nn_))) in seen.get(iid, set())
                 if tied and _tail_clean(env_name, row, nn_, seen.get(iid, set()), o["maxRew"][b]):
                     continue                      # another maximiser of the same instance (ties of the arg-max)
-                return [(j, "C15", "stored-solution-is-a-rollout-of-its-instance",
+                return notes + [(j, "C15", "stored-solution-is-a-rollout-of-its-instance",
                          "best_solutions[%d] = %s for reward %s, specification %s" % (b, row, o["maxRew"][b], srow))]
         prev_iter = o if act[0] == "iter" else None
         if act[0] in ("setup", "bend", "end"):
             if o["instRew"] != spec["instRew"]:
-                return [(j, "C12" if act[0] == "bend" else "C15", "batch-results-at-own-rows" if act[0] == "bend" else "reported-best-of-all-rollouts",
+                return notes + [(j, "C12" if act[0] == "bend" else "C15", "batch-results-at-own-rows" if act[0] == "bend" else "reported-best-of-all-rollouts",
                          "instance_rewards %s, specification %s" % (o["instRew"], spec["instRew"]))]
             for i, (row, srow) in enumerate(zip(o["instSol"], spec["instSol"])):
                 if row != srow and not ((o["instRew"][i], tuple(eff(env_name, row, nn_))) in seen.get(i + 1, set())
                                         and _tail_clean(env_name, row, nn_, seen.get(i + 1, set()), o["instRew"][i])):
-                    return [(j, "C12" if act[0] == "bend" else "C15", "batch-results-at-own-rows" if act[0] == "bend" else "reported-best-of-all-rollouts",
+                    return notes + [(j, "C12" if act[0] == "bend" else "C15", "batch-results-at-own-rows" if act[0] == "bend" else "reported-best-of-all-rollouts",
                              "instance_solutions[%d] = %s, specification %s" % (i, row, srow))]
             if len(o["instSol"]) != len(spec["instSol"]):
-                return [(j, "C12", "batch-results-at-own-rows", "%d solution rows, specification %d" % (len(o["instSol"]), len(spec["instSol"])))]
+                return notes + [(j, "C12", "batch-results-at-own-rows", "%d solution rows, specification %d" % (len(o["instSol"]), len(spec["instSol"])))]
         if act[0] == "end" and (o["rshape"] != [cd["n"]] or o["sshape"] != [cd["n"], world.W]):
-            return [(j, "C12", "final-buffers-one-row-per-instance",
+            return notes + [(j, "C12", "final-buffers-one-row-per-instance",
                      "instance_rewards has shape %s, instance_solutions %s: expected [%d] and [%d, %d] (row i = instance i)"
                      % (o["rshape"], o["sshape"], cd["n"], cd["n"], world.W))]
-        if o.get("ver", spec["ver"]) != spec["ver"]:
-            return [(j, None, "optimiser-steps", "version %s, specification %s" % (o.get("ver"), spec["ver"]))]
-    return []
+        if o.get("ver", spec["ver"]) != spec["ver"] and not notes:
+            notes.append((j, None, "optimiser-steps", "optimiser steps applied to the live parameters: %s, specification %s" % (o.get("ver"), spec["ver"])))
+    return notes
 
 
 def _tail_clean(env_name, row, nn_, seen, rew):
@@ -766,6 +767,8 @@ def mkviol(prop, clause, prefix, rec, upto, detail):
 # (b) real RL4COTrainer.fit runs with a small real AttentionModelPolicy on random instances
 # ----------------------------------------------------------------------------------------------------------------
 FSCALE = 1000000
+RUN_LIMIT_S = 30     # one replayed run takes ~0.1 s
+FIT_LIMIT_S = 120    # one RL4COTrainer.fit run takes ~1 s
 FEPS = 40            # 4e-5: float32 tour lengths against float64 sums of 1e-6-rounded distances
 
 
@@ -879,6 +882,38 @@ def _first_fails(fails):
     return sorted(first.items())
 
 
+class RunTimeout(Exception):
+    pass
+
+
+class watchdog:
+    """bounds one run of the real code (the library loops until every row is done: a broken change can spin forever)"""
+
+    def __init__(self, seconds):
+        self.seconds = seconds
+
+    def __enter__(self):
+        import signal
+
+        def handler(signum, frame):
+            raise RunTimeout("no result after %d s" % self.seconds)
+
+        self.old = signal.signal(signal.SIGALRM, handler)
+        signal.setitimer(signal.ITIMER_REAL, self.seconds)
+
+    def __exit__(self, *a):
+        import signal
+
+        signal.setitimer(signal.ITIMER_REAL, 0)
+        signal.signal(signal.SIGALRM, self.old)
+        return False
+
+
+def hang(cls, env_name, inst, actions, ex):
+    return {"property": "C15", "env": "%s/%s" % (CLSNAME.get(cls, cls), env_name), "monitor": "search-does-not-finish",
+            "inst": inst, "actions": actions, "detail": str(ex)}
+
+
 def config_task(args):
     """one configuration: TLC on Search.tla, replay of every complete run, TLC on the recorded traces (own process)"""
     ci, cd, flags, seed = args
@@ -904,7 +939,14 @@ def config_task(args):
         cfg = dict(B=cd["B"], A=cd["A"], R=cd["R"], max_iters=cd["max_iters"], cls=cd["cls"], stop_at=key[1])
         torch.manual_seed(seed * 100003 + k)
         try:
-            events, director = drive(world, cd["method"], cfg, plans_of(world, cd, table, key))
+            with watchdog(RUN_LIMIT_S):
+                events, director = drive(world, cd["method"], cfg, plans_of(world, cd, table, key))
+        except RunTimeout as ex:
+            out["viol"].append(hang(cd["cls"], cd["env"], dict(inst_note, stop_after=key[1]), [list(x) for x in key[2]], ex))
+            n_raised += 1
+            if n_raised >= 3:
+                break
+            continue
         except Exception as ex:  # noqa: BLE001
             out["viol"].append(raised(ex, cd["cls"], cd["env"], dict(inst_note, stop_after=key[1]), [list(x) for x in key[2]]))
             n_raised += 1
@@ -952,8 +994,13 @@ def fit_task(args):
     fit_recs, t1 = [], time.time()
     for k, p in enumerate(plans):
         env_name, cls, n, B, A, iters, mrt = p[:7]
+        note = dict({"n": n, "batch_size": B, "augment_size": A, "max_iters": iters, "max_runtime": mrt,
+                     "note": "RL4COTrainer.fit, AttentionModelPolicy"}, **(p[7] if len(p) > 7 else {}))
         try:
-            fit_recs.append(fit_run(env_name, cls, n, B, A, iters, seed=seed * 1009 + k, max_runtime=mrt, **(p[7] if len(p) > 7 else {})))
+            with watchdog(FIT_LIMIT_S):
+                fit_recs.append(fit_run(env_name, cls, n, B, A, iters, seed=seed * 1009 + k, max_runtime=mrt, **(p[7] if len(p) > 7 else {})))
+        except RunTimeout as ex:
+            out["viol"].append(hang(cls, env_name, note, [["RL4COTrainer.fit"]], ex))
         except Exception as ex:  # noqa: BLE001
             out["viol"].append(raised(ex, cls, env_name, dict({"n": n, "batch_size": B, "augment_size": A, "max_iters": iters, "max_runtime": mrt,
                                                                 "note": "RL4COTrainer.fit, AttentionModelPolicy"}, **(p[7] if len(p) > 7 else {})),
